@@ -292,6 +292,31 @@ Ltac unfs := unfold whm, endpoint_slope, interior_slope, limit_endpoint_src, lim
 Lemma in_box_opp d s : in_box (- d) (- s) <-> in_box d s.
 Proof. unfold in_box. lra. Qed.
 
+(* the two ways of writing the sign tests agree over R *)
+Ltac rl := repeat match goal with |- context [Rltb ?a ?b] =>
+  first [ rewrite (proj2 (Rltb_true a b)) by nra | rewrite (proj2 (Rltb_false a b)) by nra ] end.
+Lemma sign_mul_pos a b : Rltb 0 (a_sign ar a * a_sign ar b) = Rltb 0 (a * b).
+Proof.
+  unfold a_sign, c0, c1. cbn [a_sub a_ltb a_ofZ R_arith].
+  destruct (Rtotal_order a 0) as [A|[A|A]], (Rtotal_order b 0) as [B|[B|B]]; try subst a; try subst b;
+    rewrite ?Rmult_0_l, ?Rmult_0_r; rl; reflexivity.
+Qed.
+Lemma sign_mul_neg a b : Rltb (a_sign ar a * a_sign ar b) 0 = Rltb (a * b) 0.
+Proof.
+  unfold a_sign, c0, c1. cbn [a_sub a_ltb a_ofZ R_arith].
+  destruct (Rtotal_order a 0) as [A|[A|A]], (Rtotal_order b 0) as [B|[B|B]]; try subst a; try subst b;
+    rewrite ?Rmult_0_l, ?Rmult_0_r; rl; reflexivity.
+Qed.
+Lemma same_sign_mask_v2_R dl dr : same_sign_mask_v2 ar dl dr = Rltb 0 (dl * dr).
+Proof. apply sign_mul_pos. Qed.
+Lemma opp_sign_mask_v2_R sl sr : opp_sign_mask_v2 ar sl sr = Rltb (sl * sr) 0.
+Proof. apply sign_mul_neg. Qed.
+(* robust to the switch of the aliases in Model/Pchip.v *)
+Lemma same_sign_mask_R dl dr : same_sign_mask ar dl dr = Rltb 0 (dl * dr).
+Proof. first [reflexivity | apply sign_mul_pos]. Qed.
+Lemma opp_sign_mask_R sl sr : opp_sign_mask ar sl sr = Rltb (sl * sr) 0.
+Proof. first [reflexivity | apply sign_mul_neg]. Qed.
+
 (* ---------- interior slope (weighted harmonic mean) ------------------------------------ *)
 Lemma whm_opp dl dr hl hr : dl <> 0 -> dr <> 0 ->
   (hl + 2 * hr) * dr + (2 * hl + hr) * dl <> 0 ->
@@ -327,7 +352,7 @@ Qed.
 Lemma interior_slope_box dl dr hl hr : 0 < hl -> 0 < hr ->
   in_box (interior_slope ar dl dr hl hr) dl /\ in_box (interior_slope ar dl dr hl hr) dr.
 Proof.
-  intros Hl Hr. unfold interior_slope. change (a_ltb ar (c0 ar) (a_mul ar dl dr)) with (Rltb 0 (dl * dr)).
+  intros Hl Hr. unfold interior_slope. rewrite same_sign_mask_R.
   destruct (Rltb 0 (dl * dr)) eqn:E.
   - apply Rltb_true in E. destruct (Rlt_dec 0 dl) as [P|P].
     + assert (0 < dr) by nra. apply whm_box_pos; auto.
@@ -391,7 +416,7 @@ Lemma src_limit_eq_ref sl sr hl hr : 0 < hl -> 0 < hr -> (sl <> 0 \/ sr = 0) ->
 Proof.
   intros Hl Hr Hc. assert (E := endpoint_slope_eq sl sr hl hr Hl Hr).
   assert (Hpos : 0 < hl + hr) by lra.
-  set (d := endpoint_slope ar sl sr hl hr) in *. unfold limit_endpoint_src, limit_endpoint_ref.
+  set (d := endpoint_slope ar sl sr hl hr) in *. unfold limit_endpoint_src, limit_endpoint_ref. rewrite opp_sign_mask_R.
   cbn [a_ltb a_mul a_abs R_arith]. change (c3 ar) with 3. change (c0 ar) with 0.
   destruct (a_neqb ar (a_sign ar d) (a_sign ar sl)) eqn:S1.
   - apply sign_neqb_true in S1. unfold same_sign in S1.
@@ -448,7 +473,7 @@ Lemma fixed_limit_eq_ref sl sr hl hr : 0 < hl -> 0 < hr ->
 Proof.
   intros Hl Hr. assert (E := endpoint_slope_eq sl sr hl hr Hl Hr).
   assert (Hpos : 0 < hl + hr) by lra.
-  set (d := endpoint_slope ar sl sr hl hr) in *. unfold limit_endpoint_fixed, limit_endpoint_ref.
+  set (d := endpoint_slope ar sl sr hl hr) in *. unfold limit_endpoint_fixed, limit_endpoint_ref. rewrite opp_sign_mask_R.
   cbn [a_ltb a_mul a_abs R_arith]. change (c3 ar) with 3. change (c0 ar) with 0.
   destruct (a_neqb ar (a_sign ar d) (a_sign ar sl)) eqn:S1.
   - rewrite Rabs_R0. destruct (Rltb (sl * sr) 0); cbn [andb]; auto.
@@ -892,7 +917,8 @@ Proof.
   unfold evalL, wx, wy, pchip_coeffs_with, derivs_with.
   cbn [diffs secants map2 a_sub a_div R_arith rev app interior end_slope coeffs eval_pieces].
   change (a_leb ar) with Rleb. rdec.
-  unfold horner, coeff, limit_endpoint_src, endpoint_slope, interior_slope, whm, c0, c1, c2, c3.
+  unfold horner, coeff, limit_endpoint_src, interior_slope. rewrite ?same_sign_mask_R, ?opp_sign_mask_R.
+  unfold endpoint_slope, whm, c0, c1, c2, c3.
   cbn [a_add a_sub a_mul a_div a_ofZ a_ltb a_leb a_abs R_arith].
   rdec. cbn [andb]. lra.
 Qed.
@@ -1067,4 +1093,3 @@ Proof.
   assert (0 <= nth (Datatypes.S i) ys 0) by (apply Forall_nth_nonneg; auto; lia).
   unfold Rmin in S. destruct (Rle_dec (nth i ys 0) (nth (Datatypes.S i) ys 0)); lra.
 Qed.
-
